@@ -89,6 +89,24 @@ claim(
     "DESIGN.md §5.5 C35",
 )
 
+claim(
+    "C22",
+    "RWLockImpl is modelled at one action per atomic / futex operation (Model/RWLock.lean: lock, try_lock with its 16 "
+    "drain probes and roll-back, unlock, lock_shared with optimistic increment / back-out / spin, try_lock_shared, "
+    "unlock_shared, lock_upgrade, lock_downgrade), with the usage contract in `entry`. Proved for every reachable state "
+    "and any number of threads: a write holder excludes every other holder (C22_exclusion); the word is "
+    "readerUnits + W*[bit owner], the owner is unique (C22_word); successful try variants really hold "
+    "(C22_try_sound); a failed try_lock removes exactly the bit it set (C22_failed_try_lock_restores); if the draining "
+    "writer is parked while the word is exactly W a wake is pending (C22_no_lost_wakeup), and when nobody holds or is "
+    "inside a call nobody is parked (C22_no_deadlock). Traces of the real code under the deterministic scheduler are "
+    "replayed through the same exec.",
+    "Trusted: Lean kernel; dsched; SC reading; fewer than 2^30 threads. Progress of the spin loops (fetch_or / load "
+    "retries) is not formalised; the documented two-upgrader hazard is exhibited as C22_two_upgraders_stuck and excluded "
+    "from the harness scenarios, as the class documentation requires.",
+    "Lean 4 proof (counting invariant over an interleaving semantics) + trace validation under a deterministic scheduler",
+    "DESIGN.md §5.3 C22",
+)
+
 ALL = ["C%02d" % i for i in range(1, 49)]
 for _p in ALL:
     if _p not in CLAIMED:
